@@ -147,6 +147,38 @@ def resolve_item(d, it):
     return 'q:%s:%s:%s' % (k, ns, enc(name))
 
 
+def wop_line(wop):
+    """protocol line of a two-sheet operation (see lean/Drv/C15.lean)"""
+    k = wop[0]
+    if k == 'w':
+        return 'w %d %s' % (wop[1], op_line(wop[2]))
+    if k == 'wgrab':
+        return 'wgrab %d %d %s' % (wop[1], wop[2], ssels_word(wop[3]))
+    if k == 'wshare':
+        return 'wshare %d %s %d' % (wop[1], idx_word(wop[2]), wop[3])
+    if k == 'wobjsel':
+        return 'wobjsel %s' % ssels_word(wop[1])
+    raise ValueError(k)
+
+
+def wop_from_json(o):
+    def item(i):
+        if i[0] == 'q':
+            ps = i[2] if isinstance(i[2], str) else ('P', i[2][1])
+            return ('q', i[1], ps, i[3])
+        return tuple(i)
+
+    def sels(x):
+        return [[item(i) for i in s] for s in x]
+    if o[0] == 'w':
+        return ('w', o[1], from_json_op(o[2]))
+    if o[0] == 'wgrab':
+        return ('wgrab', o[1], o[2], sels(o[3]))
+    if o[0] == 'wobjsel':
+        return ('wobjsel', sels(o[1]))
+    return tuple(o)
+
+
 def op_line(op):
     k = op[0]
     if k == 'parse':
@@ -171,6 +203,8 @@ def op_line(op):
         return 'setnstext %d %s %s %s' % (op[1], enc(op[2]), enc(op[3]), op[4])
     if k == 'rawdel':
         return 'rawdel %d' % op[1]
+    if k == 'insmedia':
+        return 'insmedia %d %s %s' % (op[1], ssels_word(op[2]), idx_word(op[3]))
     if k == 'insobj':
         d = dict(op[2])
         w = ','.join('+'.join(resolve_item(d, i) for i in sel) for sel in op[1])
@@ -184,15 +218,15 @@ def sel_named_prefixes(sel):
 
 
 def named_prefixes(op):
-    sels = op[2] if op[0] == 'setsel' else op[1]
+    sels = op[2] if op[0] in ('setsel', 'insmedia') else op[1]
     return [p for s in sels for p in sel_named_prefixes(s)]
 
 
 def mentions_prefix(op):
     if op[0] in ('insns', 'insnstext', 'setns', 'delns', 'setprefix', 'setnstext'):
         return True
-    if op[0] in ('setsel', 'insstyle', 'insobj'):
-        sels = op[2] if op[0] == 'setsel' else op[1]
+    if op[0] in ('setsel', 'insstyle', 'insobj', 'insmedia'):
+        sels = op[2] if op[0] in ('setsel', 'insmedia') else op[1]
         return any(i[0] == 'q' and i[2] != 'N' for s in sels for i in s)
     if op[0] == 'parse':
         return any(r[0] == 'ns' for r in op[2])
@@ -240,6 +274,8 @@ def from_json_op(o):
         return ('parse', tuple((a, b) for a, b in o[1]), [rule(r) for r in o[2]])
     if k == 'setsel':
         return ('setsel', o[1], sels(o[2]))
+    if k == 'insmedia':
+        return ('insmedia', o[1], sels(o[2]), o[3])
     if k == 'insstyle':
         return ('insstyle', sels(o[1]), o[2], o[3])
     if k == 'insobj':
@@ -450,8 +486,17 @@ class HistoryGen:
             return self.gen_idx(n)
 
         k = rng.choices(['insns', 'insnstext', 'setns', 'delns', 'delrule', 'setprefix', 'setsel', 'insstyle',
-                         'insobj', 'parse', 'setnstext', 'rawdel'],
-                        weights=[14, 8, 16, 10, 10, 9, 12, 10, 5, 2, 5, 2])[0]
+                         'insobj', 'parse', 'setnstext', 'rawdel', 'insmedia'],
+                        weights=[14, 8, 16, 10, 10, 9, 12, 10, 5, 2, 5, 2, 4])[0]
+        if k == 'insmedia':
+            md_idx = [i for i, r in enumerate(rules) if r.type == r.MEDIA_RULE]
+            if md_idx:
+                i = rng.choice(md_idx)
+                m = len(rules[i].cssRules)
+                x = rng.random()
+                idx = None if x < 0.4 else (m + 1 if x < 0.47 else rng.randint(0, m))
+                return ('insmedia', i, gen_sels(rng, pick_prefixes(rng, declared), bad=0.04), idx)
+            k = 'insstyle'
         if k == 'setnstext' and ns_idx:
             i = rng.choice(ns_idx)
             u = rules[i].namespaceURI if rng.random() < 0.75 else some_uri() or 'u9'
@@ -512,6 +557,112 @@ class HistoryGen:
         return gen_start(rng)
 
 
+class WorldGen:
+    """operations of one two-sheet history: two parsed start sheets, then a style rule object is taken from one of
+    them and followed while it is inserted into the other sheet, deleted from either, re-targeted, and while
+    namespace operations run on both sheets"""
+    SIDE_KINDS = ('insns', 'insnstext', 'setns', 'delns', 'delrule', 'setprefix', 'setsel', 'insstyle', 'setnstext')
+
+    def __init__(self, rng):
+        self.rng = rng
+        self.n = rng.choice([3, 4, 5, 6, 8, 10])
+        self.i = -1
+        self.kind = 'world'
+        self.w = None
+
+    def bind(self, w):
+        self.w = w
+
+    def __iter__(self):
+        return self
+
+    def __next__(self):
+        self.i += 1
+        if self.i < 2:
+            st = gen_start(self.rng)
+            src = [r for r in st[2] if r != ('other', 'variables')]
+            if not any(r[0] == 'style' for r in src):
+                src.append(('style', gen_sels(self.rng, [r[1] for r in src if r[0] == 'ns' and r[1]], bad=0)))
+            return ('w', self.i, ('parse', (), src))
+        if self.i > self.n + 1:
+            raise StopIteration
+        return self.gen_op()
+
+    def side_op(self, side):
+        g = HistoryGen(self.rng)
+        g.bind(self.w.s[side])
+        for _ in range(20):
+            op = g.gen_op()
+            if op[0] in self.SIDE_KINDS:
+                return ('w', side, op)
+        return ('w', side, ('setns', 'p', 'u1'))
+
+    def gen_op(self):
+        rng, w = self.rng, self.w
+        sheets = [w.s[0].sheet, w.s[1].sheet]
+        decl = [list(dict(s.namespaces.items())) for s in sheets]
+        if w.obj is None:
+            cands = [(sd, i) for sd in (0, 1) for i, r in enumerate(sheets[sd].cssRules) if r.type == r.STYLE_RULE]
+            if cands and rng.random() < 0.85:
+                sd, i = rng.choice(cands)
+                return ('wgrab', sd, i, gen_sels(rng, pick_prefixes(rng, decl[sd], 0.03), bad=0.01))
+            sd = rng.randrange(2)
+            return ('w', sd, ('insstyle', gen_sels(rng, pick_prefixes(rng, decl[sd], 0.03), bad=0), None, 1))
+        obj = w.obj
+        where = [[i for i, x in enumerate(s.cssRules) if x is obj] for s in sheets]
+        r = rng.random()
+        if r < 0.25:
+            to = [sd for sd in (0, 1) if not where[sd]]
+            if to:
+                sd = rng.choice(to)
+                n = len(sheets[sd].cssRules)
+                x = rng.random()
+                idx = None if x < 0.4 else (n + 1 if x < 0.45 else rng.randint(0, n))
+                return ('wshare', sd, idx, int(rng.random() < 0.4))
+        if r < 0.40:
+            sd = rng.randrange(2)
+            return ('wobjsel', gen_sels(rng, pick_prefixes(rng, decl[sd], 0.03), bad=0.02))
+        if r < 0.58:
+            sides = [sd for sd in (0, 1) if where[sd]]
+            if sides:
+                sd = rng.choice(sides)
+                i = where[sd][0]
+                if rng.random() < 0.5:
+                    return ('w', sd, ('delrule', i))
+                return ('w', sd, ('setsel', i, gen_sels(rng, pick_prefixes(rng, decl[rng.randrange(2)], 0.03), bad=0.02)))
+        return self.side_op(rng.randrange(2))
+
+
+def world_boundary_histories():
+    P = lambda p: ('P', p)
+    ns = lambda p, u, c='000': ('ns', p, u, c)
+    st = lambda *sels: ('style', [list(s) for s in sels])
+    A = ('w', 0, ('parse', (), [ns('p', 'u1'), st([T(P('p'), 'a')])]))
+    B = ('w', 1, ('parse', (), [ns('q', 'u1'), ns('r', 'u2'), st([T(P('r'), 'b')])]))
+    g = ('wgrab', 0, 1, [[T(P('p'), 'a')]])
+    h = []
+    # one object in two lists: follows the sheet it was inserted into last
+    h.append([A, B, g, ('wshare', 1, None, 1), ('wobjsel', [[T(P('r'), 'c')]]), ('w', 0, ('delns', 'p')),
+              ('w', 1, ('setns', 'z', 'u2')), ('w', 0, ('delrule', 0)), ('w', 1, ('setns', 'y', 'u2')),
+              ('wobjsel', [[T('N', 'c')]]), ('wshare', 0, None, 1)])
+    # the proper move: out of A first, then into B
+    h.append([A, B, g, ('w', 0, ('delrule', 1)), ('wshare', 1, 1, 0), ('wshare', 1, 2, 0), ('w', 1, ('setns', 'z', 'u1')),
+              ('w', 1, ('delns', 'z')), ('w', 0, ('delns', 'p'))])
+    # positions: rules inserted and removed in front of the object, in both lists
+    h.append([A, B, g, ('wshare', 1, 2, 0), ('w', 1, ('insstyle', [[T('N', 'x')]], 2, 0)),
+              ('w', 0, ('insstyle', [[T('N', 'y')]], 1, 0)), ('w', 1, ('insns', 'k', 'u3', 0, 0)),
+              ('w', 1, ('delrule', 3)), ('w', 0, ('setsel', 2, [[T(P('q'), 'd')]])), ('w', 1, ('delrule', 3)),
+              ('wobjsel', [[T(P('p'), 'e')]])])
+    # detached inside B (A.deleteRule), then a rejected @namespace insert into B rolls back and re-parents it
+    h.append([('w', 0, ('parse', (), [ns('p', 'u3'), st([T('N', 'b')])])),
+              ('w', 1, ('parse', (), [ns('p', 'a'), ns('', 'urn:x'), st([T(P('p'), 'a')]), st([T('N', 'x')])])),
+              ('wgrab', 0, 1, [[T('A', 'x')]]), ('wshare', 1, None, 1), ('w', 0, ('delrule', 1)),
+              ('w', 1, ('insns', '', 'a', 1, 0)), ('w', 1, ('setns', 'k', 'a'))])
+    # the target sheet does not declare the namespace at all
+    h.append([A, ('w', 1, ('parse', (), [st([T('N', 'b')])])), g, ('wshare', 1, None, 1)])
+    return h
+
+
 # ------------------------------------------------------------------------------------------------
 def T(ps, name):
     return ('q', 't', ps, name)
@@ -567,6 +718,10 @@ def boundary_histories():
               ('setnstext', 1, '', 'e', '000')])
     h.append([('parse', (), [ns('p', 'd', '010'), st(a_p)]), ('setnstext', 0, 'q', 'other', '000'),
               ('setnstext', 0, 'q', 'd', '101'), ('setnstext', 0, '', 'd', '000')])
+    h.append([('parse', (), [ns('', 'd'), ns('p', 'u1'), ('media', [[[T('N', 'a')]]])]),
+              ('insmedia', 2, [[T('N', 'b')], [T(P('p'), 'c')]], None), ('insmedia', 2, [[T(P('zz'), 'c')]], 0),
+              ('insmedia', 2, [[T('E', 'e')]], 0), ('insmedia', 2, [[T('A', 'f')]], 4), ('delns', 'p'),
+              ('delns', '')])
     h.append([('parse', (), base), ('rawdel', 0, 'del')])
     h.append([('parse', (), base), ('rawdel', 0, 'pop')])
     h.append([('parse', (), [ns('p', 'u1'), ns('q', 'u2'), st(a_p)]), ('rawdel', 1, 'del'), ('rawdel', 1, 'pop')])
